@@ -837,7 +837,7 @@ theorem pack_refs_symref_regression :
   decide
 
 set_option maxRecDepth 8000 in
-/-- (fixed, PENDING-8) `add_if_new` through a dangling symref consulted packed-refs under the symref's own
+/-- (fixed by 3fe26f6, C08 series) `add_if_new` through a dangling symref consulted packed-refs under the symref's own
 name.  Now: `disk_add_if_new_refines` without the extra hypothesis. -/
 theorem add_if_new_packed_name_regression :
     let d : RefsOld.Disk := { oldEmptyDisk with files := [(b!"refs/heads/s", b!"ref: refs/heads/t")],
@@ -859,7 +859,7 @@ theorem get_peeled_regression :
   decide
 
 set_option maxRecDepth 8000 in
-/-- DESIGN §7-F17 (fixed, PENDING-9): reftable dropped unconditional overwrites and deletes, and did not
+/-- DESIGN §7-F17 (fixed, PENDING-8): reftable dropped unconditional overwrites and deletes, and did not
 read `ZERO_SHA` as "absent".  Now: `reftable_set_if_equals_spec`, `reftable_remove_if_equals_spec`. -/
 theorem reftable_unconditional_regression :
     let m : RefsOld.Map := [(b!"refs/heads/m", shaA)]
@@ -869,7 +869,7 @@ theorem reftable_unconditional_regression :
   decide
 
 set_option maxRecDepth 8000 in
-/-- (fixed, PENDING-10) a symref set through a `NamespacedRefsContainer` did not resolve through it.
+/-- (fixed, PENDING-9) a symref set through a `NamespacedRefsContainer` did not resolve through it.
 Now: `namespaced_symref_resolves`. -/
 theorem namespaced_symref_regression :
     let o := RefsOld.namespaced RefsOld.dictOps (RefsOld.nsPrefix b!"foo")
